@@ -625,8 +625,10 @@ fn main() {
                 let e = brief(&Glob::empty()) == brief(&Glob::new("").unwrap());
                 let t = brief(&Glob::tree()) == brief(&Glob::new("**").unwrap());
                 let es: Vec<String> = args.iter().map(|x| unhex(x)).collect();
-                let by_text = wax::any(es.iter().map(|x| x.as_str())).map(|a| any_summary(&a)).unwrap_or_else(|e| error_line(&e));
-                let by_results = wax::any(es.iter().map(|x| Glob::new(x.as_str()))).map(|a| any_summary(&a)).unwrap_or_else(|e| error_line(&e));
+                // when several members are invalid the two routes may report different ones first (a text member is parsed and
+                // checked, a result member has been compiled too): any error is the same outcome here
+                let by_text = wax::any(es.iter().map(|x| x.as_str())).map(|a| any_summary(&a)).unwrap_or_else(|_| "err".to_string());
+                let by_results = wax::any(es.iter().map(|x| Glob::new(x.as_str()))).map(|a| any_summary(&a)).unwrap_or_else(|_| "err".to_string());
                 format!(
                     "empty={} tree={} any-results={}",
                     if e { "same" } else { "DIFF" },
